@@ -5,7 +5,7 @@ from run import selftest as W
 from run import witnesses2 as W2
 
 PROPERTY = "C07"
-LEAN_MODULES = ["LccModel.Props.C07", "LccModel.Props.C07Run", "LccModel.Props.C07Listeners"]
+LEAN_MODULES = ["LccModel.Props.C07", "LccModel.Props.C07Run", "LccModel.Props.C07Listeners", "LccModel.ProtoSession"]
 PROPS_FILES = ["LccModel/Props/C07.lean", "LccModel/Props/C07Run.lean", "LccModel/Props/C07Listeners.lean"]
 NAMESPACES = {"LccModel/Props/C07.lean": "LccModel.C07", "LccModel/Props/C07Run.lean": "LccModel.C07Run", "LccModel/Props/C07Listeners.lean": "LccModel.C07Listeners"}
 DRIVER = "drivers/Run.lean"
@@ -57,13 +57,13 @@ class Sess(SessionStream):
 class Run(PropRunStream):
     name = "C07.run"
     prop = "C07"
-    profile = "basic"
+    profile = "basic-detached"  # "basic" + `with lcc.detached_step(d): pass` acts (30 % of the step changes)
     oracles = ("C07",)
     quick_cases = 330
     quick_seconds = 50
     p_interrupt = 0.3           # interrupted runs are ordinary cases since fix D11 (SuiteEnd / TestSessionEnd order holds under interrupt)
     p_listeners = 0.6           # several reporting sessions of ONE class with per-instance handler sets (C07: EVERY backend receives …)
-    corpus = W2.LISTENER_CONTROLS + [witness("D11 "), witness("D1 "), witness("D3 ")] + W2.CONTROLS3 + [W2.EMPTY_STEP_DESCRIPTION, W2.EMPTY_STEP_IN_THREAD] + W2.CONTROLS + W2.CONTROLS2
+    corpus = [W2.DETACHED_STEP_THEN_LOG] + W2.LISTENER_CONTROLS + [witness("D11 "), witness("D1 "), witness("D3 ")] + W2.CONTROLS3 + [W2.EMPTY_STEP_DESCRIPTION, W2.EMPTY_STEP_IN_THREAD] + W2.CONTROLS + W2.CONTROLS2
 
 
 def streams(ctx):
